@@ -115,8 +115,8 @@ def contentHandler (size : Int) (hdrs : HMap) : Except HErr Bytes :=
       match stoll (afterFirst 45 range) with
       | none => .error .throw
       | some e =>
-        -- `if (last == INT64_MAX) throw std::out_of_range("range end")`: `last + 1` cannot overflow
-        if e = 9223372036854775807 then .error .throw else
+        -- `if (start < 0 || last < start || last == INT64_MAX) throw std::out_of_range("range")`
+        if start < 0 ∨ e < start ∨ e = 9223372036854775807 then .error .throw else
         let end_ := e + 1
         if !inI64 (end_ - start) then .error .ub else
         let header := str "Content-Range: bytes " ++ decI start ++ [45] ++ decI (end_ - 1) ++ [47]
